@@ -316,8 +316,8 @@ func (s *SencBox) setSubSamplesUsedFlag() {
 
 // Size - box-specific type
 func (s *SencBox) Size() uint64 {
-	if s.readBoxSize > 0 {
-		return s.readBoxSize
+	if s.readBoxSize > 0 && s.readButNotParsed {
+		return s.readBoxSize // The raw data is written as it was read
 	}
 	return s.calcSize()
 }
